@@ -21,7 +21,24 @@ pub fn c17_next_safe_and_strictly_decreasing() {
             assert!(mv.children.verif_index() < i);
             assert!(it.verif_index() < i);
             assert!(i >= 2 && mv.children.verif_index() == i - 2);
-            // decoded exactly from the move word
+        }
+        None => {
+            assert!(it.verif_index() == i);
+        }
+    }
+    kani::cover!(r.is_some());
+    kani::cover!(r.is_none());
+}
+
+/// what `next` returns is decoded exactly from the table words (a separate query: its two extra
+/// symbolic reads of the table would otherwise double the cost of the safety query above)
+#[kani::proof]
+pub fn c17_next_decodes_the_table_words() {
+    let i: usize = kani::any();
+    kani::assume(i < hook::BOOK_SIZE);
+    let mut it = BookMoves::verif_from_index(i).into_iter();
+    match it.next() {
+        Some(mv) => {
             let w = hook::book_word(i - 1);
             assert!(mv.source as u8 == (w & 0x3f) as u8 && mv.dest as u8 == ((w >> 6) & 0x3f) as u8);
             // the sibling link is the offset word
@@ -30,11 +47,8 @@ pub fn c17_next_safe_and_strictly_decreasing() {
         None => {
             // end of a sibling list (offset word 0), or a sibling link that would leave the table
             assert!(hook::book_word(i) == 0 || (hook::book_word(i) as usize + 1 > i));
-            assert!(it.verif_index() == i);
         }
     }
-    kani::cover!(r.is_some());
-    kani::cover!(r.is_none());
 }
 
 #[kani::proof]
